@@ -730,6 +730,23 @@ flagsets("special-logger", "adv/special", ["Logger"], modes=("",))
 flagsets("special-private", "adv/special", ["Private"], modes=("",))
 
 
+# D31: goimports, sibling files and a package name that cannot be guessed from the path
+FILES["adv/goimp/a.go"] = """package goimp
+
+import "example.com/m/dep/core/v1"
+
+type Store interface{ Get() v1.T }
+"""
+FILES["adv/goimp/b.go"] = """package goimp
+
+import v1 "example.com/m/dep/http"
+
+var _ v1.T
+"""
+case("goimp", "adv/goimp", ["Store"])
+CASES[-1]["fmts_always"] = True
+
+
 def write_all(root, write):
     for rel, (name, decls) in EXTRA_DEPS.items():
         write(os.path.join(root, rel, "x.go"), "package %s\n\n%s" % (name, decls))
